@@ -252,7 +252,7 @@ class HttpBeaconClient:
         info = f"{self.computer}\t{self.user}\t{self.process}"
 
         # info cannot be larger than 51 bytes, truncate it to be sure.
-        info = info.encode()[:51].decode(errors="ignore")
+        info = info.encode(errors="replace")[:51].decode(errors="ignore")
 
         # ip is in little endian
         self.internal_ip = ipaddress.IPv4Address(internal_ip or random_internal_ip())
